@@ -107,6 +107,11 @@ func posOf(in ssa.Instruction) token.Pos {
 }
 
 func (e *Enc) nilCheck(ref Term, in ssa.Instruction, what string) {
+	if e.fc != nil && e.fc.NoNilCheck {
+		e.assume(not(eq(ref, intLit(0))), "nil check assumed: "+what)
+		e.assumption("nil dereferences in " + e.fnLabel + " are assumed away (nonilcheck)")
+		return
+	}
 	if ref.S == "0" {
 		e.assertOb(fmt.Sprintf("safe:nil#%d", e.ordinal("nil")), tFalse, "nil dereference: "+what, posOf(in))
 		return
